@@ -32,7 +32,10 @@ RULE = (
     "{1..64,128,468} (with and without TSIG, at a generous and at a tight limit), at explicit max_size values far from the message "
     "size — {0, 65534, 65535, 65536, 70000, 100000, 2**31} on messages of 65000..72000 octets (a few hundred opaque records, OPT/TSIG or not) "
     "and {0, 1, 12, 511, 512, 513, 65535, 65536} with request_payload in {0, 100, 512, 530, 1232, 70000} on messages around 512 octets, both "
-    "modes, with and without prepend_length —, and through step-by-step Renderer traces "
+    "modes, with and without prepend_length —, through the Renderer object route (3000 scripts per quick run: [reserve] add_question/"
+    "add_rrset [release_reserved] add_opt(opt, pad, opt_size, tsig_size) write_header add_tsig/add_multi_tsig, key names that share a "
+    "suffix with or equal a rendered name, exact and inexact caller-supplied sizes, fillers tuned so that the unpadded size is already "
+    "block-aligned in about half of the padded scripts, tight and generous max_size), and through step-by-step Renderer traces "
     "that keep adding after a TooBig; a case is non-trivial if its key (kind + content) is new"
 )
 TRUSTED_BASE = C03.TRUSTED_BASE
@@ -801,8 +804,12 @@ LEVEL = {
             "that result parses to that prefix, padding option and TSIG included (class of C03.parse_render_partial: absolute names, not an "
             "UPDATE); padding_multiple — with padding the length, TSIG included, is a multiple of the block for every "
             "message, limit and mode (the TSIG is rendered against a fresh compression table, so its reserve is exact: repaired D07); "
-            "reserve_too_big — OPT+TSIG reserves beyond the limit give TooBig. Tied to the code by correspondence at every limit from 505 to len+2, at limits on both sides of the [512, 65535] clamp on small and on 64-KiB messages, every pad block in {1..64,128,468} and "
-            "step-by-step Renderer traces.",
+            "renderer_padding_multiple — the same through the Renderer object (add_opt with the exact opt_size/tsig_size, write_header, "
+            "add_tsig/add_multi_tsig = _write_tsig): the signed message is a multiple of the block in any renderer state, aligned or not, "
+            "compressible key name or not, and the TSIG leaves the table alone; "
+            "reserve_too_big — OPT+TSIG reserves beyond the limit give TooBig. Tied to the code by correspondence at every limit from 505 to len+2, at limits on both sides of the [512, 65535] clamp on small and on 64-KiB messages, every pad block in {1..64,128,468}, "
+            "the Renderer object route (octets with the MAC masked, table and per-call trace equal the model's; direct oracle: length ≡ 0 mod "
+            "block, ≤ max_size, from_wire with the keyring verifies the TSIG, records/OPT/PADDING present) and step-by-step Renderer traces.",
     "note": "Trusted: Lean kernel + propext/Classical.choice/Quot.sound; the statements in lean/Props/C08.lean; the correspondence "
             "harness and its generators; harness/extract_C03.py. The TSIG MAC is abstract and fixed-size. Tie-only: result_parses for "
             "messages with an origin or of opcode UPDATE (the C03 theorems for those classes are stated for untruncated renderings).",
